@@ -49,6 +49,7 @@ pub enum Case {
     /// is_equal / is_prefix / is_suffix
     Eq { ax: usize, ay: usize, x: Vec<u8>, y: Vec<u8> },
     /// finder / iterator history (C16)
+    #[cfg(any(feature = "std", feature = "alloc"))]
     Hist(crate::hist::History),
 }
 
@@ -60,6 +61,7 @@ impl Case {
             Case::Sub { align, needle, hay } => format!("S {} {} {}", align, hex(needle), hex(hay)),
             Case::Pair { align, needle, i1, i2, hay } => format!("P {} {} {} {} {}", align, hex(needle), i1, i2, hex(hay)),
             Case::Eq { ax, ay, x, y } => format!("E {} {} {} {}", ax, ay, hex(x), hex(y)),
+            #[cfg(any(feature = "std", feature = "alloc"))]
             Case::Hist(h) => h.encode(),
         }
     }
@@ -71,6 +73,7 @@ impl Case {
             "I" => Some(Case::Iter { align: f.get(1)?.parse().ok()?, needles: unhex(f.get(2)?), hay: unhex(f.get(3)?), pattern: unhex(f.get(4)?) }),
             "S" => Some(Case::Sub { align: f.get(1)?.parse().ok()?, needle: unhex(f.get(2)?), hay: unhex(f.get(3)?) }),
             "P" => Some(Case::Pair { align: f.get(1)?.parse().ok()?, needle: unhex(f.get(2)?), i1: f.get(3)?.parse().ok()?, i2: f.get(4)?.parse().ok()?, hay: unhex(f.get(5)?) }),
+            #[cfg(any(feature = "std", feature = "alloc"))]
             "H" => crate::hist::History::decode(line).map(Case::Hist),
             "E" => Some(Case::Eq { ax: f.get(1)?.parse().ok()?, ay: f.get(2)?.parse().ok()?, x: unhex(f.get(3)?), y: unhex(f.get(4)?) }),
             _ => None,
@@ -266,6 +269,7 @@ pub fn exec_case(c: &Case) -> String {
                 }
             }
         }
+        #[cfg(any(feature = "std", feature = "alloc"))]
         Case::Hist(h) => {
             let mut st = crate::hist::HistStats::default();
             put(
